@@ -1,5 +1,6 @@
 import OjgVerif.Common.Driver
 import OjgVerif.JPath.Model
+import OjgVerif.JPath.FilterSpec
 /-! Driver ops of the JSONPath family (C05, C11).
 
 Request: `<op> <rep> <flags> <path> <data>` (tab separated)
@@ -12,7 +13,13 @@ Request: `<op> <rep> <flags> <path> <data>` (tab separated)
   `g` firstTypedWildOne, `h` hasTypedMap, `d` hasTypedDescent, `a` walkTypedArray; `P` = the pinned configuration (op `pinned` answers its letters)
 * path: fragments separated by `/` (`-` = the empty path): `c:<hex key>`, `n:<int>`, `w`, `d`,
   `u:<member>,…` with members `k<hex>` / `i<int>`, `s:<start>:<end>:<step>` (`_` = absent),
-  `f:<canonical value>|…` = a filter whose script is true exactly on the listed values
+  `q:<script>` = a filter; the script travels in postfix token form (tokens separated by one space) and its
+  truth value is computed by `FilterSpec.matches` (the documented semantics), never by the implementation:
+    values `n` `t` `f` `i<int>` `d<m>:<e>` (m·2^e) `dinf` `d-inf` `dnan` `s<hex>`, then `k` = constant of the value below;
+    path   `@` starts a path, `.c<hex>` `.n<int>` `.w` `.d` `.u<members>` `.s<start>:<end>:<step>` append a fragment,
+           `.q` appends a nested filter whose script is the tree on top, `p` = path operand;
+    `u<op>` / `b<op>` apply an operator (names of `Script.Op`) to the one / two trees below.
+  (`f:<canonical value>|…`, a filter given by the values it is true on, is still read: old replays)
 * data: canonical text (the format of `JV.render` / `lib.Render`)
 Answers: values separated by `;`, located values as `<path>=<value>` with path steps `k<hex>`/`i<n>`
 joined by `.` (`-` = the empty path). -/
@@ -116,9 +123,115 @@ def parseMember (s : String) : Option Member :=
   | 'i' :: r => (String.ofList r).toInt?.map Member.idx
   | _ => none
 
+/-! ### filter scripts in postfix token form -/
+
+inductive Cell where
+  | v (x : Script.Val)
+  | t (x : FilterSpec.STm)
+  | p (fs : List Frag)
+  | bad
+
+def opOfName (s : String) : Option Script.Op :=
+  match s with
+  | "eq" => some .eq | "neq" => some .neq | "lt" => some .lt | "gt" => some .gt
+  | "lte" => some .lte | "gte" => some .gte | "or" => some .or | "and" => some .and
+  | "not" => some .not | "exists" => some .exists | "has" => some .has | "count" => some .count
+  | "length" => some .length | "in" => some .in | "empty" => some .empty
+  | "add" => some .add | "sub" => some .sub | "mult" => some .mult | "divide" => some .divide
+  | _ => none
+
+def parseFlt (s : String) : Option Script.Flt :=
+  if s = "inf" then some (.inf false)
+  else if s = "-inf" then some (.inf true)
+  else if s = "nan" then some .nan
+  else match s.splitOn ":" with
+    | [m, e] => match m.toInt?, e.toInt? with
+      | some m, some e => some (.fin m e)
+      | _, _ => none
+    | _ => none
+
+/-- no regular expressions in the scripts of this family -/
+def noRx : Script.RxEngine := fun _ _ => none
+
+def pathFragTok (rest : String) (st : List Cell) : List Cell :=
+  -- `rest` is the token without its leading dot
+  let arg := (rest.drop 1).toString
+  let app := fun (f : Frag) => match st with
+    | .p fs :: st' => Cell.p (fs ++ [f]) :: st'
+    | _ => [Cell.bad]
+  if rest = "w" then app .wild
+  else if rest = "d" then app .descent
+  else if rest = "q" then
+    match st with
+    | .t x :: .p fs :: st' => .p (fs ++ [FilterSpec.filterOf noRx x]) :: st'
+    | _ => [.bad]
+  else if rest.startsWith "c" then
+    match ofHex arg with
+    | some k => app (.child k)
+    | none => [.bad]
+  else if rest.startsWith "n" then
+    match arg.toInt? with
+    | some i => app (.nth i)
+    | none => [.bad]
+  else if rest.startsWith "u" then
+    match (arg.splitOn ",").mapM parseMember with
+    | some ms => app (.union ms)
+    | none => [.bad]
+  else if rest.startsWith "s" then
+    match arg.splitOn ":" with
+    | [a, b, c] =>
+      match parseOptInt a, parseOptInt b, parseOptInt c with
+      | some a, some b, some c => app (.slice a b c)
+      | _, _, _ => [.bad]
+    | _ => [.bad]
+  else [.bad]
+
+def stepTok (st : List Cell) (tok : String) : List Cell :=
+  let rest := (tok.drop 1).toString
+  if tok = "n" then .v .null :: st
+  else if tok = "t" then .v (.bool true) :: st
+  else if tok = "f" then .v (.bool false) :: st
+  else if tok = "k" then
+    match st with
+    | .v x :: st' => .t (.const x) :: st'
+    | _ => [.bad]
+  else if tok = "@" then .p [] :: st
+  else if tok = "p" then
+    match st with
+    | .p fs :: st' => .t (.path fs) :: st'
+    | _ => [.bad]
+  else if tok.startsWith "." then pathFragTok rest st
+  else if tok.startsWith "i" then
+    match rest.toInt? with
+    | some i => .v (.int i) :: st
+    | none => [.bad]
+  else if tok.startsWith "d" then
+    match parseFlt rest with
+    | some f => .v (.flt f) :: st
+    | none => [.bad]
+  else if tok.startsWith "s" then
+    match ofHex rest with
+    | some b => .v (.str b) :: st
+    | none => [.bad]
+  else if tok.startsWith "u" then
+    match opOfName rest, st with
+    | some o, .t a :: st' => .t (.app1 o a) :: st'
+    | _, _ => [.bad]
+  else if tok.startsWith "b" then
+    match opOfName rest, st with
+    | some o, .t b :: .t a :: st' => .t (.app2 o a b) :: st'
+    | _, _ => [.bad]
+  else [.bad]
+
+def parseScript (s : String) : Option FilterSpec.STm :=
+  match (s.splitOn " ").foldl (fun (st : List Cell) tok => match st with | [Cell.bad] => [Cell.bad] | _ => stepTok st tok) [] with
+  | [Cell.t x] => some x
+  | _ => none
+
 def parseFrag (s : String) : Option Frag :=
   if s = "w" then some .wild
   else if s = "d" then some .descent
+  else if s.startsWith "q:" then (parseScript (s.drop 2).toString).map (FilterSpec.filterOf noRx)
   else
     match s.splitOn ":" with
     | ["c", hx] => (ofHex hx).map Frag.child
